@@ -296,6 +296,30 @@ theorem gpio_is_evMgr (n bw : Nat) (little : Bool) (gins : List GpioIn) :
     ((gpioIrq n bw little).run gins).ev = (evMgr (gpioCfg n bw little)).run (gpioTrace n gins) :=
   gpio_run_ev n bw little gins _
 
+/-- Non-interference between pads (the model keeps one delayed sample `in_d` PER pad): two runs of the GPIO client
+    whose inputs agree on pad `k` (its synchronised value, its `_mode`/`_edge` bits, the bus traffic at its bit
+    position) agree on everything of source `k` - pending register, edge detector, enable, clear - whatever all the
+    other pads, their modes and the other bits of every written mask do. -/
+theorem gpio_pads_independent {n bw : Nat} {little : Bool} {k : Nat} (hk : k < n) (g₁ g₂ : List GpioIn)
+    (h : GpioAgreeTraces bw k g₁ g₂) :
+    ((gpioIrq n bw little).run g₁).ev.bit k = ((gpioIrq n bw little).run g₂).ev.bit k ∧
+    ((gpioIrq n bw little).run g₁).ev.clear k = ((gpioIrq n bw little).run g₂).ev.clear k := by
+  rw [gpio_is_evMgr, gpio_is_evMgr]
+  exact clear_is_local (by rw [gpio_cfg_n]; exact hk) _ _ (gpioDerive_agree n bw little hk g₁ g₂ _ _ h rfl)
+
+/-- Non-vacuity: three pads in Change mode; the two runs differ in pads 0 and 2 (pad 2, the LAST pad, toggles in one
+    run only) and agree on pad 1, which changes in cycle 1 to the value pad 2 has in the other run. -/
+example :
+    let g (pads : List Bool) : GpioIn :=
+      { pads := pads, mode := [true, true, true], edge := [false, false, false], adr := 9, we := false, datW := 0 }
+    GpioAgreeTraces 8 1 [g [false, false, false], g [true, true, true], g [false, true, false]]
+                        [g [true, false, true], g [false, true, false], g [false, true, true]] ∧
+    (List.range 4).map (fun t => pendingAt (gpioCfg 3 8 false)
+        (gpioTrace 3 [g [false, false, false], g [true, true, true], g [false, true, false], g [false, true, false]]) t 1) =
+      [false, false, true, true] := by
+  refine ⟨?_, by decide⟩
+  simp [GpioAgreeTraces, GpioAgreeOn]
+
 /- Full statement that the code does NOT satisfy (known finding C15-gpio-change-back-to-back):
      theorem gpio_change_pending : modeAt gins t k = true → changeAt gins t k = true →
          pendingAt (gpioCfg n bw little) (gpioTrace n gins) (t + 1) k = true
